@@ -1038,6 +1038,24 @@ pub struct OvlOpt {
     #[serde(skip_serializing_if = "Option::is_none", default)]
     pub t_opt: Option<String>,
 }
+/// lists and `$text` in a struct with a flattened member (serde then asks for a map, not a struct)
+#[derive(Serialize, Deserialize, Debug, PartialEq, Clone, Default)]
+pub struct OvlExtra {
+    #[serde(rename = "@a_id", default)]
+    pub id: String,
+}
+#[derive(Serialize, Deserialize, Debug, PartialEq, Clone, Default)]
+#[serde(rename = "m_ovlflat")]
+pub struct OvlFlat {
+    #[serde(flatten)]
+    pub extra: OvlExtra,
+    #[serde(default)]
+    pub t_a: Vec<String>,
+    #[serde(default)]
+    pub t_b: Vec<u32>,
+    #[serde(rename = "$text", default)]
+    pub t: String,
+}
 /// a shape one level down: hand-written documents declare their namespace prefixes on the wrapper, i.e.
 /// on an ancestor of the container whose children are interleaved
 #[derive(Serialize, Deserialize, Debug, PartialEq, Clone, Default)]
@@ -1503,6 +1521,23 @@ pub fn ovl_family() -> Vec<(TypeOps, fn(&mut Rng, usize) -> Box<dyn Val>)> {
                 },
             })
         }),
+        // (a flattened member makes the struct a map for serde: it has no name of its own, so it sits in the wrapper)
+        (ops!(OvlWrap<OvlFlat>, "WrapOvlFlat"), |r, m| {
+            Box::new(OvlWrap { w_inner: OvlFlat { extra: OvlExtra { id: format!("id{}", r.below(100)) }, t_a: gen_ovl_strings(r, m), t_b: gen_ovl_nums(r, m), t: format!("txt{}", r.below(100)) } })
+        }),
+        (ops!(OvlWrap<BTreeMap<String, Vec<String>>>, "WrapOvlMap"), |r, m| {
+            let mut map = BTreeMap::new();
+            for k in ["t_a", "t_b", "t_c"] {
+                let n = r.below(m + 1);
+                if n > 0 {
+                    map.insert(k.to_string(), (0..n).map(|_| gen_string(r, Pos::Text)).collect::<Vec<String>>());
+                }
+            }
+            if r.bool() {
+                map.insert("$text".to_string(), vec![format!("txt{}", r.below(100))]);
+            }
+            Box::new(OvlWrap { w_inner: map })
+        }),
         (ops!(OvlOpt, "OvlOpt"), |r, m| {
             Box::new(OvlOpt {
                 t_a: gen_ovl_strings(r, m),
@@ -1788,10 +1823,23 @@ pub struct CyrDoc {
     pub a7: Option<String>,
     #[serde(rename = "@xабвгдежз", default)]
     pub a8: Option<String>,
+    /// space-separated list in an attribute
+    #[serde(rename = "@список", default)]
+    pub list: Vec<String>,
     #[serde(rename = "значение", default)]
     pub name: String,
+    /// space-separated list as the text of an element
+    #[serde(rename = "слова", default)]
+    pub words: CyrWords,
     #[serde(rename = "$value", default)]
     pub rest: Vec<CyrItem>,
+}
+#[derive(Serialize, Deserialize, Debug, PartialEq, Clone, Default)]
+pub struct CyrWords {
+    #[serde(rename = "@числа", default)]
+    pub nums: Vec<u16>,
+    #[serde(rename = "$text", default)]
+    pub items: Vec<String>,
 }
 #[derive(Serialize, Deserialize, Debug, PartialEq, Clone)]
 pub enum CyrItem {
@@ -1815,7 +1863,9 @@ pub fn gen_cyr_doc(r: &mut Rng, label: &str) -> (String, String, CyrDoc) {
         a6: opt(r),
         a7: opt(r),
         a8: opt(r),
+        list: (0..r.below(6)).map(|_| word(r)).collect(),
         name: word(r),
+        words: CyrWords { nums: (0..r.below(5)).map(|_| r.next() as u16).collect(), items: (0..r.below(6)).map(|_| word(r)).collect() },
         rest: {
             let mut items = Vec::new();
             for _ in 0..r.below(4) {
@@ -1837,7 +1887,17 @@ pub fn gen_cyr_doc(r: &mut Rng, label: &str) -> (String, String, CyrDoc) {
             body.push_str(&format!(" {}=\"{}\"", k, x));
         }
     }
+    if !v.list.is_empty() {
+        // one or several spaces between the items
+        let sep = if r.bool() { " " } else { "  " };
+        body.push_str(&format!(" список=\"{}\"", v.list.join(sep)));
+    }
     body.push_str(&format!("><значение>{}</значение>", v.name));
+    body.push_str("<слова");
+    if !v.words.nums.is_empty() {
+        body.push_str(&format!(" числа=\"{}\"", v.words.nums.iter().map(|n| n.to_string()).collect::<Vec<_>>().join(" ")));
+    }
+    body.push_str(&format!(">{}</слова>", v.words.items.join(" ")));
     for it in &v.rest {
         match it {
             CyrItem::Item(x) => body.push_str(&format!("<элемент>{}</элемент>", x)),
